@@ -157,72 +157,249 @@ class Canon:
       loop / comprehension target  x -> ELEM(canon(iterable))        (ELEMk for the k-th element of a tuple target)
       several definitions          x -> ANY(canon(d1), canon(d2), ...)   (sorted, duplicates removed)
       recursion through itself     x -> REC
+
+    Definitions are the *reaching* ones, computed structurally: walking outwards from the statement of the use, earlier siblings are
+    scanned backwards; a definition that is executed whenever the use is (plain assignment in the same or an enclosing block,
+    `with`-body assignment, both arms of an if/else, the enclosing loop's target) kills everything before it; definitions nested
+    in earlier compound statements are may-definitions; definitions later in an enclosing loop body reach through the back edge;
+    arms of the same `if` are exclusive.  Comprehension targets are bound inside their comprehension and renamed `_`.
     """
 
     def __init__(self, f: Func, max_depth: int = 7) -> None:
         self.f = f
         self.du = DefUse(f)
         self.max_depth = max_depth
+        self.pm: dict[ast.AST, ast.AST] = {}
+        for p in ast.walk(f.node):
+            for ch in ast.iter_child_nodes(p):
+                self.pm[ch] = p
+        # entries per name with a statement position (comprehension targets are handled by binding)
+        self.entries: dict[str, list[tuple[ast.AST, str, ast.AST | None]]] = {}
+        for name, ds in self.du.defs.items():
+            for v, how, st in ds:
+                if how == "elem-add":
+                    continue
+                if st is None and how == "assign":  # walrus
+                    st = self._stmt_of(v)
+                self.entries.setdefault(name, []).append((v, how, st))
+        self._cache: dict[tuple[int, int], ast.AST] = {}
 
-    def node(self, e: ast.AST, _stack: tuple[str, ...] = (), _depth: int = 0) -> ast.AST:
-        c = self
+    # ---- positions -------------------------------------------------------------------
+    def _stmt_of(self, n: ast.AST) -> ast.AST | None:
+        cur: ast.AST | None = n
+        while cur is not None and not isinstance(cur, ast.stmt):
+            cur = self.pm.get(cur)
+        return cur if cur is not None and cur is not self.f.node and (cur in self.pm) else None
 
-        class T(ast.NodeTransformer):
-            def visit_Name(self, n: ast.Name) -> ast.AST:  # noqa: N802
-                if not isinstance(n.ctx, ast.Load) or n.id in c.du.params and n.id not in c.du.defs:
-                    return n
-                if n.id not in c.du.defs:
-                    return n
-                if n.id in _stack or _depth >= c.max_depth:
-                    return ast.Name(id="REC", ctx=ast.Load())
-                alts = []
-                for v, how, _st in c.du.defs[n.id]:
-                    if how == "elem-add":
-                        continue
-                    cv = c.node(v, _stack + (n.id,), _depth + 1)
-                    if how == "assign":
-                        alts.append(cv)
-                    elif how.startswith("assign["):
-                        import re as _re
+    def _inside(self, st: ast.AST | None, container: ast.AST) -> bool:
+        cur = st
+        while cur is not None:
+            if cur is container:
+                return True
+            if cur is self.f.node:
+                return False
+            cur = self.pm.get(cur)
+        return False
 
-                        node2: ast.AST = cv
-                        for ix in _re.findall(r"\[(\d+)\]", how):
-                            node2 = ast.Subscript(value=node2, slice=ast.Constant(value=int(ix)), ctx=ast.Load())
-                        alts.append(node2)
-                    elif how.startswith("elem"):
-                        import re as _re
+    def _must_def(self, s: ast.AST, name: str) -> bool:
+        if isinstance(s, (ast.Assign, ast.AnnAssign)):
+            return any(st is s and how.startswith("assign") for _v, how, st in self.entries.get(name, []))
+        if isinstance(s, (ast.With, ast.AsyncWith)):
+            return any(st is s for _v, _h, st in self.entries.get(name, [])) or any(self._must_def(b, name) for b in s.body)
+        if isinstance(s, ast.If):
+            return bool(s.orelse) and any(self._must_def(b, name) for b in s.body) and any(self._must_def(b, name) for b in s.orelse)
+        return False
 
-                        node_: ast.AST = ast.Call(func=ast.Name(id="ELEM", ctx=ast.Load()), args=[cv], keywords=[])
-                        for ix in _re.findall(r"\[(\d+)\]", how):
-                            node_ = ast.Subscript(value=node_, slice=ast.Constant(value=int(ix)), ctx=ast.Load())
-                        alts.append(node_)
-                    elif how == "aug":
-                        alts.append(ast.Call(func=ast.Name(id="AUG", ctx=ast.Load()), args=[cv], keywords=[]))
-                    else:
-                        alts.append(ast.Call(func=ast.Name(id=how.upper(), ctx=ast.Load()), args=[cv], keywords=[]))
-                if n.id in c.du.params:
-                    alts.append(ast.Name(id=n.id, ctx=ast.Load()))
-                uniq: dict[str, ast.AST] = {}
-                for a in alts:
-                    uniq.setdefault(" ".join(ast.unparse(a).split()), a)
-                if not uniq:
-                    return n
-                if len(uniq) == 1:
-                    return next(iter(uniq.values()))
-                return ast.Call(func=ast.Name(id="ANY", ctx=ast.Load()), args=[uniq[k] for k in sorted(uniq)], keywords=[])
+    def _block_of(self, cur: ast.AST) -> tuple[ast.AST, str, list, int] | None:
+        par = self.pm.get(cur)
+        if par is None:
+            return None
+        for fieldname in ("body", "orelse", "finalbody", "handlers"):
+            block = getattr(par, fieldname, None)
+            if isinstance(block, list):
+                for i, b in enumerate(block):
+                    if b is cur:
+                        return par, fieldname, block, i
+        return None
 
+    def reaching(self, name: str, at: ast.AST | None) -> tuple[list[tuple[ast.AST, str, ast.AST | None]], bool]:
+        """(definitions of `name` that may reach statement `at`, whether the parameter / outer value may reach too)."""
+        ents = [e for e in self.entries.get(name, []) if not (e[2] is None and e[1].startswith("elem"))]
+        if at is None:
+            return ents, True
+        out: list[tuple[ast.AST, str, ast.AST | None]] = []
+
+        def add_inside(container: ast.AST) -> None:
+            for e in ents:
+                if self._inside(e[2], container) and not any(e is o for o in out):
+                    out.append(e)
+
+        cur: ast.AST = at
+        killed = False
+        while cur is not self.f.node and not killed:
+            loc = self._block_of(cur)
+            if loc is None:
+                break
+            par, fieldname, block, idx = loc
+            if fieldname != "handlers":
+                for s in reversed(block[:idx]):
+                    add_inside(s)
+                    if self._must_def(s, name):
+                        killed = True
+                        break
+            if killed:
+                break
+            if isinstance(par, (ast.For, ast.AsyncFor, ast.While)) and fieldname == "body":
+                hdr = [e for e in ents if e[2] is par]
+                if hdr and isinstance(par, (ast.For, ast.AsyncFor)):
+                    for e in hdr:
+                        if not any(e is o for o in out):
+                            out.append(e)
+                    killed = True
+                    break
+                for s in block[idx:]:
+                    add_inside(s)
+                if hdr:  # walrus in a while test
+                    out.extend(e for e in hdr if not any(e is o for o in out))
+                    killed = True
+                    break
+            elif isinstance(par, (ast.With, ast.AsyncWith, ast.If)):
+                hdr = [e for e in ents if e[2] is par]
+                if hdr and (isinstance(par, ast.If) or fieldname == "body"):
+                    out.extend(e for e in hdr if not any(e is o for o in out))
+                    killed = True
+                    break
+            elif isinstance(par, ast.Try):
+                if fieldname in ("orelse", "finalbody"):
+                    for s in par.body:
+                        add_inside(s)
+                if fieldname == "finalbody":
+                    for s in list(par.orelse) + list(par.handlers):
+                        add_inside(s)
+            elif isinstance(par, ast.ExceptHandler):
+                if par.name == name:
+                    return [(ast.Name(id="EXC", ctx=ast.Load()), "assign", None)], False
+                tr = self.pm.get(par)
+                if isinstance(tr, ast.Try):
+                    for s in tr.body:
+                        add_inside(s)
+            cur = par
+            if isinstance(cur, ast.ExceptHandler):
+                continue
+        return out, not killed
+
+    # ---- normalisation ---------------------------------------------------------------
+    def node(self, e: ast.AST, at: ast.AST | None = None) -> ast.AST:
+        if at is None:
+            at = self._stmt_of(e)
+            if at is None and e in self.pm:
+                at = None
+        return ast.fix_missing_locations(self._conv(e, at, (), 0, {}))
+
+    @staticmethod
+    def _wrap(fn: str, arg: ast.AST) -> ast.AST:
+        return ast.Call(func=ast.Name(id=fn, ctx=ast.Load()), args=[arg], keywords=[])
+
+    @staticmethod
+    def _index(node: ast.AST, how: str) -> ast.AST:
+        import re as _re
+
+        for ix in _re.findall(r"\[(\d+)\]", how):
+            node = ast.Subscript(value=node, slice=ast.Constant(value=int(ix)), ctx=ast.Load())
+        return node
+
+    def _bind_target(self, target: ast.AST, base: ast.AST, bound: dict[str, ast.AST]) -> None:
+        if isinstance(target, ast.Name):
+            bound[target.id] = base
+        elif isinstance(target, (ast.Tuple, ast.List)):
+            for i, t in enumerate(target.elts):
+                if isinstance(t, ast.Starred):
+                    t = t.value
+                self._bind_target(t, ast.Subscript(value=base, slice=ast.Constant(value=i), ctx=ast.Load()), bound)
+
+    def _conv(self, e: ast.AST, at: ast.AST | None, stack: tuple[str, ...], depth: int, bound: dict[str, ast.AST]) -> ast.AST:
         import copy
 
-        return ast.fix_missing_locations(T().visit(copy.deepcopy(e)))
+        if isinstance(e, ast.Name):
+            return self._name(e, at, stack, depth, bound)
+        if isinstance(e, (ast.ListComp, ast.SetComp, ast.GeneratorExp, ast.DictComp)):
+            b2 = dict(bound)
+            gens = []
+            for g in e.generators:
+                it = self._conv(g.iter, at, stack, depth, b2)
+                self._bind_target(g.target, self._wrap("ELEM", it), b2)
+                ifs = [self._conv(i, at, stack, depth, b2) for i in g.ifs]
+                gens.append(ast.comprehension(target=ast.Name(id="_", ctx=ast.Store()), iter=it, ifs=ifs, is_async=g.is_async))
+            if isinstance(e, ast.DictComp):
+                return ast.DictComp(key=self._conv(e.key, at, stack, depth, b2), value=self._conv(e.value, at, stack, depth, b2), generators=gens)
+            return type(e)(elt=self._conv(e.elt, at, stack, depth, b2), generators=gens)
+        if isinstance(e, ast.Lambda):
+            b2 = dict(bound)
+            for a in list(e.args.posonlyargs) + list(e.args.args) + list(e.args.kwonlyargs):
+                b2[a.arg] = ast.Name(id=a.arg, ctx=ast.Load())
+            return ast.Lambda(args=copy.deepcopy(e.args), body=self._conv(e.body, at, stack, depth, b2))
+        if not isinstance(e, ast.AST):
+            return e
+        kw = {}
+        for fieldname, val in ast.iter_fields(e):
+            if isinstance(val, list):
+                kw[fieldname] = [self._conv(v, at, stack, depth, bound) if isinstance(v, ast.AST) else v for v in val]
+            elif isinstance(val, ast.AST):
+                kw[fieldname] = self._conv(val, at, stack, depth, bound)
+            else:
+                kw[fieldname] = val
+        return type(e)(**kw)
 
-    def text(self, e: ast.AST | None) -> str:
+    def _name(self, n: ast.Name, at: ast.AST | None, stack: tuple[str, ...], depth: int, bound: dict[str, ast.AST]) -> ast.AST:
+        import copy
+
+        if not isinstance(n.ctx, ast.Load):
+            return ast.Name(id=n.id, ctx=n.ctx)
+        if n.id in bound:
+            return copy.deepcopy(bound[n.id])
+        if n.id not in self.du.defs:
+            return ast.Name(id=n.id, ctx=ast.Load())
+        if n.id in stack or depth >= self.max_depth:
+            return ast.Name(id="REC", ctx=ast.Load())
+        ents, outer = self.reaching(n.id, at)
+        if not ents and not (outer and n.id in self.du.params):
+            # use before any positioned definition (closure, comprehension-only name): fall back to every definition
+            ents = list(self.entries.get(n.id, []))
+        alts: list[ast.AST] = []
+        for v, how, st in ents:
+            if st is None and how.startswith("elem"):
+                cv = self._conv(v, at, stack + (n.id,), depth + 1, {})
+            else:
+                cv = self._conv(v, st if st is not None else at, stack + (n.id,), depth + 1, {})
+            if how == "assign":
+                alts.append(cv)
+            elif how.startswith("assign["):
+                alts.append(self._index(cv, how))
+            elif how.startswith("elem"):
+                alts.append(self._index(self._wrap("ELEM", cv), how))
+            elif how == "aug":
+                alts.append(self._wrap("AUG", cv))
+            else:
+                alts.append(self._index(self._wrap(how.split("[")[0].upper(), cv), how))
+        if outer and n.id in self.du.params:
+            alts.append(ast.Name(id=n.id, ctx=ast.Load()))
+        uniq: dict[str, ast.AST] = {}
+        for a in alts:
+            uniq.setdefault(" ".join(ast.unparse(ast.fix_missing_locations(a)).split()), a)
+        if not uniq:
+            return ast.Name(id=n.id, ctx=ast.Load())
+        if len(uniq) == 1:
+            return next(iter(uniq.values()))
+        return ast.Call(func=ast.Name(id="ANY", ctx=ast.Load()), args=[uniq[k] for k in sorted(uniq)], keywords=[])
+
+    def text(self, e: ast.AST | None, at: ast.AST | None = None) -> str:
         if e is None:
             return ""
-        return " ".join(ast.unparse(self.node(e)).split())
+        return " ".join(ast.unparse(self.node(e, at)).split())
 
-    def alts(self, e: ast.AST) -> list[str]:
+    def alts(self, e: ast.AST, at: ast.AST | None = None) -> list[str]:
         """Canonical texts an expression may stand for (the alternatives of a top-level ANY are split)."""
-        n = self.node(e)
+        n = self.node(e, at)
         if isinstance(n, ast.Call) and isinstance(n.func, ast.Name) and n.func.id == "ANY":
             return [" ".join(ast.unparse(a).split()) for a in n.args]
         return [" ".join(ast.unparse(n).split())]
